@@ -31,13 +31,20 @@ fn codes(s: &mut String, key: &str, d: &[Vec<u16>; 3]) {
 }
 
 fn build_yuv<T: Pixel>(planes: &[Vec<u16>; 3], w: usize, h: usize, c: &Cfg, pads: [(usize, usize); 3], poison: Option<u16>) -> Yuv<T> {
+    try_build_yuv::<T>(planes, w, h, c, pads, poison).expect("well-formed frame (already accepted in another layout)")
+}
+fn try_build_yuv<T: Pixel>(planes: &[Vec<u16>; 3], w: usize, h: usize, c: &Cfg, pads: [(usize, usize); 3], poison: Option<u16>) -> Result<Yuv<T>, String> {
     let (cw, ch) = (w >> c.ssx, h >> c.ssy);
     let dims = [(w, h), (cw, ch), (cw, ch)];
     let mk = |k: usize| -> Plane<T> {
         let g = PlaneGeom { w: dims[k].0, h: dims[k].1, xdec: if k == 0 { 0 } else { c.ssx as usize }, ydec: if k == 0 { 0 } else { c.ssy as usize }, xpad: pads[k].0, ypad: pads[k].1 };
         make_plane::<T>(g, poison, |x, y| planes[k][y * dims[k].0 + x])
     };
-    Yuv::new(Frame { planes: [mk(0), mk(1), mk(2)] }, c.yuv_config()).expect("well-formed frame")
+    match crate::util::guard(|| Yuv::new(Frame { planes: [mk(0), mk(1), mk(2)] }, c.yuv_config())) {
+        Ok(Ok(y)) => Ok(y),
+        Ok(Err(e)) => Err(format!("ctor:{}", crate::frames::err_name_yuv(e))),
+        Err(_) => Err("ctor:panic".to_string()),
+    }
 }
 fn read_yuv<T: Pixel>(y: &Yuv<T>) -> [Vec<u16>; 3] {
     let mut out = [Vec::new(), Vec::new(), Vec::new()];
@@ -89,10 +96,18 @@ fn yuv_source_event<T: Pixel>(sh: &mut Shards, call: &str, c: &Cfg, st: u8, w: u
     } else {
         [(rng.below(33) as usize, rng.below(33) as usize), (rng.below(33) as usize, rng.below(33) as usize), (rng.below(33) as usize, rng.below(33) as usize)]
     };
-    let ya = build_yuv::<T>(&planes, w, h, c, pads_a, None);
-    let yb = build_yuv::<T>(&planes, w, h, c, pads_b, Some((maxc as u16).min(if st == 8 { 255 } else { maxc as u16 })));
     let mut s = String::new();
     let _ = write!(s, "\"ev\":\"pw\",\"src\":\"yuv\",\"call\":\"{call}\",\"cfg\":{},\"st\":{st},\"w\":{w},\"h\":{h},\"pads\":{:?}", c.json(), pads_b.iter().map(|p| vec![p.0, p.1]).collect::<Vec<_>>());
+    let built = try_build_yuv::<T>(&planes, w, h, c, pads_a, None).and_then(|a| try_build_yuv::<T>(&planes, w, h, c, pads_b, Some((maxc as u16).min(if st == 8 { 255 } else { maxc as u16 }))).map(|b| (a, b)));
+    let (ya, yb) = match built {
+        Ok(x) => x,
+        Err(e) => {
+            // a well-formed frame was rejected by the constructor in one of the two layouts
+            let _ = write!(s, ",\"res\":\"{e}\"");
+            sh.emit(&s);
+            return;
+        }
+    };
     let before = read_yuv(&ya);
     match from_yuv(call, &ya) {
         Err(e) => {
